@@ -117,3 +117,29 @@ Theorem C16_edge_dimensioned : forall d ef en dist,
   length (c16_gradient d ef dist) = length ef.
 Proof. exact c16_edge_dimensioned. Qed.
 Print Assumptions C16_edge_dimensioned.
+
+(* a source may list the two faces of an interior edge in either order (incl. face 0 second):
+   difference, gradient and edge_face_distances of that row are the same *)
+Theorem C16_face_order_free : forall d dist co ef ef' e a b D,
+  nth_error ef e = Some (a, b) -> nth_error ef' e = Some (b, a) ->
+  is_fill a = false -> is_fill b = false -> nth_error dist e = Some D ->
+  (exists v v', nth_error (c16_edge_face_diff d ef) e = Some v /\
+                nth_error (c16_edge_face_diff d ef') e = Some v' /\ (v == v')%Q) /\
+  (exists g g', nth_error (c16_gradient d ef dist) e = Some g /\
+                nth_error (c16_gradient d ef' dist) e = Some g' /\ (g == g')%Q) /\
+  (exists x x', nth_error (c16_grid_efd false ef) e = Some x /\
+                nth_error (c16_grid_efd false ef') e = Some x' /\
+                c16_entry_value co x = c16_entry_value co x').
+Proof. exact c16_face_order_free. Qed.
+Print Assumptions C16_face_order_free.
+
+(* ... and the two nodes of an edge in either orientation *)
+Theorem C16_node_order_free : forall d co en en' e a b,
+  nth_error en e = Some (a, b) -> nth_error en' e = Some (b, a) ->
+  (exists v v', nth_error (c16_edge_node_diff d en) e = Some v /\
+                nth_error (c16_edge_node_diff d en') e = Some v' /\ (v == v')%Q) /\
+  (exists x x', nth_error (c16_grid_end false en) e = Some x /\
+                nth_error (c16_grid_end false en') e = Some x' /\
+                c16_entry_value co x = c16_entry_value co x').
+Proof. exact c16_node_order_free. Qed.
+Print Assumptions C16_node_order_free.
